@@ -35,7 +35,13 @@ pub enum IndexKind {
     Window,
     /// the crate's own IdentifyDistinct lookups built over the ranges
     Distinct,
+    /// lookups into a virtual sequence whose indices start above 2^32 (the
+    /// ranges handed to the crate are shifted by `FAR_OLD` / `FAR_NEW`)
+    Far,
 }
+
+pub const FAR_OLD: usize = (1 << 40) + 3;
+pub const FAR_NEW: usize = (1 << 41) + 11;
 
 #[derive(Clone, Debug, Serialize, Deserialize, PartialEq)]
 pub struct SeqCase {
@@ -68,6 +74,29 @@ impl SeqCase {
     }
     pub fn new_core(&self) -> &[u32] {
         &self.new[self.new_range.0..self.new_range.0 + self.m()]
+    }
+    /// The ranges as they are handed to the crate (shifted for `Far` lookups).
+    pub fn or_abs(&self) -> std::ops::Range<usize> {
+        if self.index == IndexKind::Far {
+            FAR_OLD + self.old_range.0..FAR_OLD + self.old_range.1
+        } else {
+            self.or()
+        }
+    }
+    pub fn nr_abs(&self) -> std::ops::Range<usize> {
+        if self.index == IndexKind::Far {
+            FAR_NEW + self.new_range.0..FAR_NEW + self.new_range.1
+        } else {
+            self.nr()
+        }
+    }
+    /// (old shift, new shift) to subtract from reported indices.
+    pub fn shifts(&self) -> (usize, usize) {
+        if self.index == IndexKind::Far {
+            (FAR_OLD, FAR_NEW)
+        } else {
+            (0, 0)
+        }
     }
     pub fn full_ranges(&self) -> bool {
         self.old_range == (0, self.old.len()) && self.new_range == (0, self.new.len())
@@ -281,10 +310,11 @@ pub fn gen_seq_case(rng: &mut Rng, size: Size, alg: Option<Alg>) -> SeqCase {
     let (old, new) = gen_pair(rng, size);
     let sub = rng.chance(2, 5);
     let (old, old_range, new, new_range) = embed(rng, old, new, sub);
-    let index = match rng.weighted(&[5, 3, 2]) {
+    let index = match rng.weighted(&[10, 6, 4, 1]) {
         0 => IndexKind::Slice,
         1 => IndexKind::Window,
-        _ => IndexKind::Distinct,
+        2 => IndexKind::Distinct,
+        _ => IndexKind::Far,
     };
     let allow_degenerate = old.len() + new.len() <= 200;
     let hasher = crate::simenv::draw_hasher(rng, allow_degenerate);
@@ -461,6 +491,19 @@ macro_rules! with_lookups {
                 };
                 let $old = &wo;
                 let $new = &wn;
+                $body
+            }
+            $crate::gen::IndexKind::Far => {
+                let fo = $crate::simenv::Far {
+                    data: &$oldv[..],
+                    base: $crate::gen::FAR_OLD,
+                };
+                let fnew = $crate::simenv::Far {
+                    data: &$newv[..],
+                    base: $crate::gen::FAR_NEW,
+                };
+                let $old = &fo;
+                let $new = &fnew;
                 $body
             }
             $crate::gen::IndexKind::Distinct => {
